@@ -274,3 +274,333 @@ Proof.
       rewrite init_step_other by (intro Hq; apply lastof_in in Hq; exact (N3 p Hq (Hsub p Hp))). reflexivity.
     + intros q Hq. rewrite init_step_length. apply Hin. apply in_or_app. right. exact Hq.
 Qed.
+
+(* ================================================================ one sorted set *)
+Section Cpp.
+  Variable D : nat.
+  Variable s : list idx.
+  Hypothesis Hsorted : sorted s.
+  Hypothesis Hwf : wf D s.
+  Local Notation n := (length s).
+  Local Notation T p := (nth p s []).
+
+  Lemma T_len p : (p < n)%nat -> length (T p) = D.
+  Proof. intros H. apply (Theta_len D s Hwf). apply nth_In. exact H. Qed.
+
+  Definition Bd (d : nat) (a b : nat) : bool := before_d d (T a) (T b).
+
+  (* inside one class of match_outside d the comparator is the order of the positions *)
+  Lemma class_order d i j : (i < n)%nat -> (j < n)%nat -> outkey d (T i) = outkey d (T j) -> (Bd d i j = true <-> (i < j)%nat).
+  Proof.
+    intros Hi Hj Hk. unfold Bd, before_d. rewrite Hk, cmp_refl.
+    assert (Hlt : forall a b, (a < b)%nat -> (b < n)%nat -> outkey d (T a) = outkey d (T b) -> nth d (T a) 0 < nth d (T b) 0).
+    { intros a b Hab Hb Hkk. apply cmp_outkey_lt; [rewrite !T_len by lia; reflexivity|apply sorted_nth_lt; assumption|exact Hkk]. }
+    split; intros H.
+    - apply Z.ltb_lt in H. destruct (lt_eq_lt_dec i j) as [[Hc|Hc]|Hc]; [exact Hc|subst; lia|].
+      pose proof (Hlt j i Hc Hi (eq_sym Hk)). lia.
+    - apply Z.ltb_lt. apply Hlt; assumption.
+  Qed.
+
+  Lemma Bd_rot d a b : (d < D)%nat -> (a < n)%nat -> (b < n)%nat -> (Bd d a b = true <-> lt_idx (rot d (T a)) (rot d (T b))).
+  Proof. intros Hd Ha Hb. unfold Bd. apply before_d_rot; rewrite !T_len by assumption; [reflexivity|exact Hd]. Qed.
+
+  Lemma Bd_trans d a b c : (d < D)%nat -> (a < n)%nat -> (b < n)%nat -> (c < n)%nat -> Bd d a b = true -> Bd d b c = true -> Bd d a c = true.
+  Proof.
+    intros Hd Ha Hb Hc H1 H2. apply Bd_rot in H1; try assumption. apply Bd_rot in H2; try assumption. apply Bd_rot; try assumption.
+    apply (lt_idx_trans _ (rot d (T b))); try assumption; rewrite !rot_length by (rewrite T_len by assumption; exact Hd); rewrite !T_len by assumption; reflexivity.
+  Qed.
+
+  Lemma Bd_total d a b : (d < D)%nat -> (a < n)%nat -> (b < n)%nat -> a <> b -> Bd d a b = false -> Bd d b a = true.
+  Proof.
+    intros Hd Ha Hb Hne H.
+    assert (Hl : length (rot d (T a)) = length (rot d (T b))) by (rewrite !rot_length by (rewrite T_len by assumption; exact Hd); rewrite !T_len by assumption; reflexivity).
+    destruct (cmp_total_cases _ _ Hl) as [[H1 _]|[[_ H2]|[_ H3]]].
+    - apply Bd_rot in H1; try assumption. congruence.
+    - apply Bd_rot; assumption.
+    - exfalso. apply Hne. apply rot_inj in H3; [|rewrite !T_len by assumption; reflexivity].
+      pose proof (sorted_nodup _ Hsorted) as Hnd. rewrite (NoDup_nth s []) in Hnd. apply Hnd; assumption.
+  Qed.
+
+  (* (1) for map[d]: a permutation of the positions, strongly sorted for the comparator (also for the last dimension: the identity) *)
+  Lemma map_d_spec d : (d < D)%nat ->
+    Permutation (map_d D d s) (seq 0 n) /\ StronglySorted (fun a b => Bd d a b = true) (map_d D d s).
+  Proof.
+    intros Hd. unfold map_d. destruct (S d =? D)%nat eqn:E.
+    - apply Nat.eqb_eq in E. split; [apply Permutation_refl|]. apply seq_sorted. intros i j _ Hij Hj. cbn in Hj.
+      apply Bd_rot; [exact Hd|lia|lia|].
+      assert (Hr : forall p, (p < n)%nat -> rot d (T p) = T p).
+      { intros p Hp. replace d with (length (T p) - 1)%nat by (rewrite T_len by exact Hp; lia). apply rot_last.
+        intro E0. pose proof (T_len p Hp) as Hl. rewrite E0 in Hl. cbn in Hl. lia. }
+      rewrite !Hr by lia. apply sorted_nth_lt; assumption.
+    - apply (sort_pos_spec (Bd d) (fun p => (p < n)%nat)).
+      + intros a b c Ha Hb Hc. apply Bd_trans; assumption.
+      + intros a b Ha Hb. apply Bd_total; assumption.
+      + apply seq_NoDup.
+      + apply Forall_forall. intros x Hx. apply in_seq in Hx. lia.
+  Qed.
+
+  (* (2) runs *)
+  Lemma runs_concat d : forall l cur c, concat (runs d s cur c l) = rev cur ++ l.
+  Proof.
+    induction l as [|p r IH]; intros cur c; cbn [runs].
+    - cbn. rewrite !app_nil_r. reflexivity.
+    - destruct (match_outside d c (T p)).
+      + rewrite IH. cbn [rev]. rewrite <- app_assoc. reflexivity.
+      + cbn [concat]. rewrite IH. reflexivity.
+  Qed.
+
+  Lemma runs_spec d : forall l cur c, (forall x, In x cur -> outkey d (T x) = outkey d c) ->
+    forall ps, In ps (runs d s cur c l) ->
+      (forall x y, adj ps x y -> adj (rev cur ++ l) x y /\ outkey d (T x) = outkey d (T y)) /\
+      (forall x, lastof ps x -> lastof (rev cur ++ l) x \/ exists y, adj (rev cur ++ l) x y /\ outkey d (T x) <> outkey d (T y)).
+  Proof.
+    induction l as [|p r IH]; intros cur c Hc ps Hps; cbn [runs] in Hps.
+    - destruct Hps as [<-|[]]. rewrite app_nil_r. split.
+      + intros x y Ha. split; [exact Ha|]. apply adj_in in Ha. destruct Ha as [Hx Hy]. apply in_rev in Hx, Hy. rewrite (Hc x Hx), (Hc y Hy). reflexivity.
+      + intros x Hx. left. exact Hx.
+    - destruct (match_outside d c (T p)) eqn:E.
+      + apply match_outside_iff in E.
+        assert (Hc' : forall x, In x (p :: cur) -> outkey d (T x) = outkey d c) by (intros x [<-|Hx]; [symmetry; exact E|apply Hc; exact Hx]).
+        pose proof (IH (p :: cur) c Hc' ps Hps) as H. cbn [rev] in H. rewrite <- app_assoc in H. exact H.
+      + assert (Hne : outkey d c <> outkey d (T p)) by (intro Eq; apply match_outside_iff in Eq; congruence).
+        destruct Hps as [<-|Hps].
+        * split.
+          -- intros x y Ha. split; [apply adj_app_r; exact Ha|]. apply adj_in in Ha. destruct Ha as [Hx Hy]. apply in_rev in Hx, Hy.
+             rewrite (Hc x Hx), (Hc y Hy). reflexivity.
+          -- intros x [a Ea]. right. exists p. split.
+             ++ exists a, r. rewrite Ea, <- app_assoc. reflexivity.
+             ++ assert (Hx : In x cur) by (apply in_rev; rewrite Ea; apply in_or_app; right; left; reflexivity).
+                rewrite (Hc x Hx). exact Hne.
+        * assert (Hc' : forall x, In x [p] -> outkey d (T x) = outkey d (T p)) by (intros x [<-|[]]; reflexivity).
+          destruct (IH [p] (T p) Hc' ps Hps) as [H1 H2]. cbn [rev app] in H1, H2. split.
+          -- intros x y Ha. destruct (H1 x y Ha) as [Hadj Hk]. split; [apply adj_app_l; exact Hadj|exact Hk].
+          -- intros x Hx. destruct (H2 x Hx) as [Hl|[y [Hadj Hk]]]; [left; apply lastof_app_l; exact Hl|].
+             right. exists y. split; [apply adj_app_l; exact Hadj|exact Hk].
+  Qed.
+
+  (* the next member of the line of x after x in set order / no later member *)
+  Definition nxt (d x y : nat) : Prop :=
+    (x < y)%nat /\ (y < n)%nat /\ outkey d (T x) = outkey d (T y) /\ forall z, (x < z)%nat -> (z < y)%nat -> outkey d (T z) <> outkey d (T x).
+  Definition nonext (d x : nat) : Prop := forall z, (x < z)%nat -> (z < n)%nat -> outkey d (T z) <> outkey d (T x).
+
+  Lemma lines_d_spec d : (d < D)%nat -> D <> 1%nat ->
+    concat (lines_d D d s) = map_d D d s /\
+    forall ps, In ps (lines_d D d s) -> (forall x y, adj ps x y -> nxt d x y) /\ (forall x, lastof ps x -> nonext d x).
+  Proof.
+    intros Hd HD1. destruct (map_d_spec d Hd) as [Hperm Hsort]. unfold lines_d.
+    destruct (D =? 1)%nat eqn:E1; [apply Nat.eqb_eq in E1; contradiction|]. clear E1.
+    set (m := map_d D d s) in *. destruct m as [|p r] eqn:Em; [split; [reflexivity|intros ps []]|].
+    split; [rewrite runs_concat; reflexivity|]. intros ps Hps.
+    assert (Hc : forall x, In x [p] -> outkey d (T x) = outkey d (T p)) by (intros x [<-|[]]; reflexivity).
+    destruct (runs_spec d r [p] (T p) Hc ps Hps) as [H1 H2]. cbn [rev app] in H1, H2.
+    assert (Hin : forall z, In z (p :: r) <-> (z < n)%nat).
+    { intros z. split; intros H.
+      - apply (Permutation_in _ Hperm) in H. apply in_seq in H. lia.
+      - apply (Permutation_in _ (Permutation_sym Hperm)). apply in_seq. lia. }
+    assert (Hbefore : forall a x b z, p :: r = a ++ x :: b -> In z a -> outkey d (T z) = outkey d (T x) -> (z < x)%nat).
+    { intros a x b z Em' Hz Hk. rewrite Em' in Hsort. destruct (ssorted_split _ _ _ _ Hsort) as [S1 _].
+      apply (class_order d z x); [apply Hin; rewrite Em'; apply in_or_app; left; exact Hz|apply Hin; rewrite Em'; apply in_elt|exact Hk|apply S1; exact Hz]. }
+    assert (Hafter : forall a x b z, p :: r = a ++ x :: b -> In z b -> outkey d (T z) = outkey d (T x) -> (x < z)%nat).
+    { intros a x b z Em' Hz Hk. rewrite Em' in Hsort. destruct (ssorted_split _ _ _ _ Hsort) as [_ S2].
+      apply (class_order d x z); [apply Hin; rewrite Em'; apply in_elt|apply Hin; rewrite Em'; apply in_or_app; right; right; exact Hz|symmetry; exact Hk|apply S2; exact Hz]. }
+    split.
+    - intros x y Ha. destruct (H1 x y Ha) as [[a [b Eab]] Hk].
+      assert (Hxy : (x < y)%nat) by (apply (Hafter a x (y :: b) y Eab); [left; reflexivity|symmetry; exact Hk]).
+      assert (Hy : (y < n)%nat) by (apply Hin; rewrite Eab; apply in_or_app; right; right; left; reflexivity).
+      split; [exact Hxy|]. split; [exact Hy|]. split; [exact Hk|]. intros z Hxz Hzy Hkz.
+      assert (Hz : In z (p :: r)) by (apply Hin; lia). rewrite Eab in Hz. apply in_app_or in Hz. destruct Hz as [Hz|[Hz|[Hz|Hz]]]; try lia.
+      + pose proof (Hbefore a x (y :: b) z Eab Hz Hkz). lia.
+      + assert (Eab' : p :: r = (a ++ [x]) ++ y :: b) by (rewrite Eab, <- app_assoc; reflexivity).
+        pose proof (Hafter (a ++ [x]) y b z Eab' Hz ltac:(congruence)). lia.
+    - intros x Hl z Hxz Hz Hkz. assert (Hzm : In z (p :: r)) by (apply Hin; exact Hz).
+      destruct (H2 x Hl) as [[a Ea]|[y [[a [b Eab]] Hk]]].
+      + rewrite Ea in Hzm. apply in_app_or in Hzm. destruct Hzm as [Hza|[Hzx|[]]]; [|lia].
+        pose proof (Hbefore a x [] z Ea Hza Hkz). lia.
+      + rewrite Eab in Hzm. apply in_app_or in Hzm. destruct Hzm as [Hza|[Hzx|[Hzy|Hzb]]]; try lia.
+        * pose proof (Hbefore a x (y :: b) z Eab Hza Hkz). lia.
+        * subst z. apply Hk. symmetry. exact Hkz.
+        * (* x < y < z in map[d], key x = key z <> key y: impossible for a sorted list *)
+          assert (Eab' : p :: r = (a ++ [x]) ++ y :: b) by (rewrite Eab, <- app_assoc; reflexivity).
+          pose proof Hsort as Hs1. rewrite Eab in Hs1. destruct (ssorted_split _ _ _ _ Hs1) as [_ S2].
+          pose proof Hsort as Hs2. rewrite Eab' in Hs2. destruct (ssorted_split _ _ _ _ Hs2) as [_ S3].
+          pose proof (S2 y (or_introl eq_refl)) as Bxy. pose proof (S3 z Hzb) as Byz. cbv beta in Bxy, Byz.
+          assert (Hx : (x < n)%nat) by (apply Hin; rewrite Eab; apply in_elt).
+          assert (Hy : (y < n)%nat) by (apply Hin; rewrite Eab; apply in_or_app; right; right; left; reflexivity).
+          assert (Hlk : length (outkey d (T x)) = length (outkey d (T y))) by (rewrite !outkey_length by (rewrite T_len by assumption; exact Hd); rewrite !T_len by assumption; reflexivity).
+          unfold Bd, before_d in Bxy, Byz. rewrite Hkz in Byz.
+          destruct (cmp_total_cases _ _ Hlk) as [[C1 C2]|[[C1 C2]|[C1 C2]]].
+          -- rewrite C2 in Byz. discriminate.
+          -- rewrite C1 in Bxy. discriminate.
+          -- apply Hk. exact C2.
+  Qed.
+
+  (* the store of tw_lines read by position *)
+  Lemma getw_pos W x : map fst W = s -> (x < n)%nat -> getw W (T x) = nth x (map snd W) 0.
+  Proof.
+    intros Hk Hx. rewrite <- Hk. apply getw_nth; [rewrite Hk; apply sorted_nodup; exact Hsorted|].
+    rewrite <- (map_length fst), Hk. exact Hx.
+  Qed.
+
+  Lemma filter_nxt d x y : nxt d x y -> exists L, filter (match_outside d (T x)) (skipn (S x) s) = T y :: L.
+  Proof.
+    intros [Hxy [Hy [Hk Hno]]].
+    destruct (filter_first_nth (match_outside d (T x)) [] (skipn (S x) s) (y - S x)) as [L HL].
+    - rewrite skipn_length. lia.
+    - rewrite nth_skipn_add. replace (S x + (y - S x))%nat with y by lia. apply match_outside_iff. exact Hk.
+    - intros i Hi. rewrite nth_skipn_add. apply Bool.not_true_is_false. intro E.
+      apply match_outside_iff in E. apply (Hno (S x + i)%nat); [lia|lia|symmetry; exact E].
+    - exists L. rewrite HL, nth_skipn_add. replace (S x + (y - S x))%nat with y by lia. reflexivity.
+  Qed.
+
+  Lemma filter_nonext d x : nonext d x -> filter (match_outside d (T x)) (skipn (S x) s) = [].
+  Proof.
+    intros Hno. apply (filter_none_nth _ []). intros i Hi. rewrite skipn_length in Hi. rewrite nth_skipn_add.
+    apply Bool.not_true_is_false. intro E.
+    apply match_outside_iff in E. apply (Hno (S x + i)%nat); [lia|lia|symmetry; exact E].
+  Qed.
+
+  Lemma sweep_dim_pos d W x : map fst W = s -> (x < n)%nat ->
+    nth x (map snd (sweep_dim d s W)) 0 = nth x (map snd W) 0 - next_val d W (T x) (skipn (S x) s).
+  Proof.
+    intros Hk Hx. rewrite <- (getw_pos (sweep_dim d s W) x (eq_trans (sweep_dim_keys d s W) Hk) Hx).
+    rewrite <- (getw_pos W x Hk Hx).
+    apply (sweep_dim_at d s (firstn x s) (T x) (skipn (S x) s) W);
+      [apply split_nth; exact Hx|apply sorted_nodup; exact Hsorted|rewrite Hk; apply incl_refl].
+  Qed.
+
+  Lemma lines_cover d : (d < D)%nat -> D <> 1%nat ->
+    NoDup (concat (lines_d D d s)) /\ (forall q, In q (concat (lines_d D d s)) <-> (q < n)%nat).
+  Proof.
+    intros Hd HD1. destruct (lines_d_spec d Hd HD1) as [Hcat _]. destruct (map_d_spec d Hd) as [Hperm _]. rewrite Hcat. split.
+    - apply (Permutation_NoDup (Permutation_sym Hperm)). apply seq_NoDup.
+    - intros q. split; intros H; [apply (Permutation_in _ Hperm) in H; apply in_seq in H; lia|].
+      apply (Permutation_in _ (Permutation_sym Hperm)). apply in_seq. lia.
+  Qed.
+
+  (* (3) one direction: the sweeps of the runs of map[d] are sweep_dim read by position *)
+  Lemma sweep_dim_cpp_eq d W : (d < D)%nat -> D <> 1%nat -> map fst W = s ->
+    sweep_dim_cpp D d s (map snd W) = map snd (sweep_dim d s W).
+  Proof.
+    intros Hd HD1 Hk. destruct (lines_d_spec d Hd HD1) as [_ Hlines]. destruct (lines_cover d Hd HD1) as [Hnd Hin].
+    assert (HlenW : length (map snd W) = n) by (rewrite map_length, <- (map_length fst), Hk; reflexivity).
+    change (sweep_dim_cpp D d s (map snd W)) with (sweep_all (lines_d D d s) (map snd W)).
+    apply (nth_ext _ _ 0 0).
+    - rewrite sweep_all_length, HlenW, map_length, <- (map_length fst), sweep_dim_keys, Hk. reflexivity.
+    - intros x Hx. rewrite sweep_all_length, HlenW in Hx.
+      pose proof (proj2 (Hin x) Hx) as Hxc. apply in_concat in Hxc. destruct Hxc as [ps [Hps Hxps]].
+      apply in_split in Hxps. destruct Hxps as [a [b E]].
+      rewrite (sweep_all_at (lines_d D d s) (map snd W) ps a x b Hnd) by (try (intros q Hq; rewrite HlenW; apply Hin; exact Hq); assumption).
+      rewrite (sweep_dim_pos d W x Hk Hx). f_equal. unfold next_val. destruct b as [|q b'].
+      + rewrite filter_nonext; [reflexivity|]. apply (proj2 (Hlines ps Hps)). exists a. exact E.
+      + assert (Hn : nxt d x q) by (apply (proj1 (Hlines ps Hps)); exists a, b'; exact E).
+        destruct (filter_nxt d x q Hn) as [L' ->]. symmetry. apply getw_pos; [exact Hk|]. destruct Hn as [_ [Hq _]]. exact Hq.
+  Qed.
+
+  (* the initial pass *)
+  Lemma init_cpp_eq : (1 <= D)%nat -> D <> 1%nat -> init_cpp D s = map snd (init_lines (D - 1) s).
+  Proof.
+    intros HD HD1. assert (Hd : (D - 1 < D)%nat) by lia.
+    destruct (lines_d_spec (D - 1) Hd HD1) as [_ Hlines]. destruct (lines_cover (D - 1) Hd HD1) as [Hnd Hin].
+    change (init_cpp D s) with (init_all (lines_d D (D - 1) s) (repeat 0 n)).
+    pose proof (init_lines_keys (D - 1) s) as Hk.
+    apply (nth_ext _ _ 0 0).
+    - rewrite init_all_length, repeat_length, map_length, <- (map_length fst), Hk. reflexivity.
+    - intros x Hx. rewrite init_all_length, repeat_length in Hx.
+      pose proof (proj2 (Hin x) Hx) as Hxc. apply in_concat in Hxc. destruct Hxc as [ps [Hps Hxps]].
+      apply in_split in Hxps. destruct Hxps as [a [b E]].
+      rewrite (init_all_at (lines_d D (D - 1) s) (repeat 0 n) ps a x b Hnd) by (try (intros q Hq; rewrite repeat_length; apply Hin; exact Hq); assumption).
+      rewrite <- (getw_pos _ x Hk Hx).
+      pose proof (init_lines_at (D - 1) (firstn x s) (T x) (skipn (S x) s)) as H. pose proof (split_nth [] s x Hx) as Hsp.
+      pose proof (eq_ind_r (fun l => NoDup l -> getw (init_lines (D - 1) l) (T x) = (if existsb (match_outside (D - 1) (T x)) (skipn (S x) s) then 0 else 1)) H Hsp) as H2.
+      cbv beta in H2. rewrite (H2 (sorted_nodup _ Hsorted)). rewrite existsb_filter. destruct b as [|q b'].
+      + rewrite filter_nonext; [reflexivity|]. apply (proj2 (Hlines ps Hps)). exists a. exact E.
+      + assert (Hn : nxt (D - 1) x q) by (apply (proj1 (Hlines ps Hps)); exists a, b'; exact E).
+        destruct (filter_nxt (D - 1) x q Hn) as [L' ->]. apply nth_repeat.
+  Qed.
+
+  (* (4) all the directions *)
+  Lemma sweep_down_cpp_eq : forall k W, (k < D)%nat -> D <> 1%nat -> map fst W = s ->
+    sweep_down_cpp D s k (map snd W) = map snd (sweep_down s k W).
+  Proof.
+    induction k as [|d IH]; intros W Hk HD1 HW; [reflexivity|]. cbn [sweep_down_cpp sweep_down].
+    rewrite (sweep_dim_cpp_eq d W) by (assumption || lia). apply IH; [lia|exact HD1|rewrite sweep_dim_keys; exact HW].
+  Qed.
+
+  Lemma tw_cpp_eq_lines_sec : (1 <= D)%nat -> s <> [] -> tw_cpp s = tw_lines s.
+  Proof.
+    intros HD Hne. unfold tw_cpp, tw_lines. rewrite (dim_of_wf D s Hwf Hne). destruct (D =? 1)%nat eqn:E1; [reflexivity|].
+    apply Nat.eqb_neq in E1. rewrite init_cpp_eq by assumption. apply sweep_down_cpp_eq; [lia|exact E1|apply init_lines_keys].
+  Qed.
+End Cpp.
+
+(* ================================================================ the theorems *)
+Theorem tw_cpp_eq_tw_lines : forall (D : nat) (s : list idx), sorted s -> wf D s -> (1 <= D)%nat -> tw_cpp s = tw_lines s.
+Proof.
+  intros D s Hs Hw HD. destruct s as [|t r]; [reflexivity|]. apply (tw_cpp_eq_lines_sec D (t :: r)); auto. discriminate.
+Qed.
+
+Theorem tw_cpp_incl_excl : forall (D : nat) (s : list idx), sorted s -> wf D s -> (forall t, In t s -> TensorSelectProofs.nonneg t) ->
+  TensorSelectProofs.lowerZ s -> (1 <= D)%nat -> s <> [] -> tw_cpp s = map (incl_excl s) s.
+Proof.
+  intros D s Hs Hw Hn Hl HD Hne. rewrite (tw_cpp_eq_tw_lines D s Hs Hw HD). apply (tw_lines_incl_excl D); assumption.
+Qed.
+
+(* the components, in the form quoted by the statements file *)
+Theorem sort_pos_sorted_permutation : forall (lt : nat -> nat -> bool) (P : nat -> Prop),
+  (forall a b c, P a -> P b -> P c -> lt a b = true -> lt b c = true -> lt a c = true) ->
+  (forall a b, P a -> P b -> a <> b -> lt a b = false -> lt b a = true) ->
+  forall l, NoDup l -> Forall P l -> Permutation (sort_pos lt l) l /\ StronglySorted (fun a b => lt a b = true) (sort_pos lt l).
+Proof. exact sort_pos_spec. Qed.
+
+Theorem map_d_sorted_permutation : forall (D : nat) (s : list idx) (d : nat), sorted s -> wf D s -> (d < D)%nat ->
+  Permutation (map_d D d s) (seq 0 (length s)) /\
+  StronglySorted (fun a b => before_d d (nth a s []) (nth b s []) = true) (map_d D d s).
+Proof. intros D s d Hs Hw Hd. exact (map_d_spec D s Hs Hw d Hd). Qed.
+
+Theorem lines_d_are_the_lines : forall (D : nat) (s : list idx) (d : nat), sorted s -> wf D s -> (d < D)%nat -> D <> 1%nat ->
+  concat (lines_d D d s) = map_d D d s /\
+  forall ps, In ps (lines_d D d s) ->
+    (forall x y, adj ps x y -> (x < y)%nat /\ (y < length s)%nat /\ outkey d (nth x s []) = outkey d (nth y s []) /\
+                                forall z, (x < z)%nat -> (z < y)%nat -> outkey d (nth z s []) <> outkey d (nth x s [])) /\
+    (forall x, lastof ps x -> forall z, (x < z)%nat -> (z < length s)%nat -> outkey d (nth z s []) <> outkey d (nth x s [])).
+Proof. intros D s d Hs Hw Hd HD1. exact (lines_d_spec D s Hs Hw d Hd HD1). Qed.
+
+Theorem sweep_dim_cpp_is_sweep_dim : forall (D : nat) (s : list idx) (d : nat) (W : wstate), sorted s -> wf D s -> (d < D)%nat -> D <> 1%nat ->
+  map fst W = s -> sweep_dim_cpp D d s (map snd W) = map snd (sweep_dim d s W).
+Proof. intros D s d W Hs Hw. exact (sweep_dim_cpp_eq D s Hs Hw d W). Qed.
+
+Theorem init_cpp_is_init_lines : forall (D : nat) (s : list idx), sorted s -> wf D s -> (1 <= D)%nat -> D <> 1%nat ->
+  init_cpp D s = map snd (init_lines (D - 1) s).
+Proof. intros D s Hs Hw. exact (init_cpp_eq D s Hs Hw). Qed.
+
+(* ---------- data for the non-vacuity examples ---------- *)
+From TV Require Import Proofs.CombinationProofs Proofs.TensorSelectProofs Proofs.TensorWeightsBridge.
+(* a 3-d set that is NOT lower (gaps in every direction, lines with holes) *)
+Definition exC_set : list idx := [[0;0;2];[0;1;0];[0;3;1];[1;0;0];[1;0;2];[1;1;0];[2;0;2];[2;3;1];[2;3;4]].
+(* a 3-d lower set, given as `list nat` level vectors and read in Z *)
+Definition exC_lowerN : list (list nat) := [[0;0;0];[0;0;1];[0;1;0];[0;2;0];[1;0;0];[1;0;1];[1;1;0];[2;0;0]]%nat.
+Definition exC_lower : list idx := map zi exC_lowerN.
+
+Ltac prove_sorted := repeat first [apply SSorted_nil | apply SSorted_cons | apply Forall_nil | apply Forall_cons; [reflexivity|]].
+Lemma exC_sorted : sorted exC_set.
+Proof. unfold exC_set, sorted. prove_sorted. Qed.
+Lemma exC_wf : wf 3 exC_set.
+Proof. unfold exC_set, wf. repeat constructor. Qed.
+Lemma exC_not_lower : ~ lowerZ exC_set.
+Proof.
+  intros H. assert (Hin : In [0;0;0] exC_set).
+  { apply (H [0;0;2]); [left; reflexivity|]. repeat constructor; lia. }
+  unfold exC_set in Hin. cbn in Hin. intuition discriminate.
+Qed.
+Lemma exC_lowerN_len : forall t, In t exC_lowerN -> length t = 3%nat.
+Proof. intros t [<-|[<-|[<-|[<-|[<-|[<-|[<-|[<-|[]]]]]]]]]; reflexivity. Qed.
+Lemma exC_lowerN_lower : lower exC_lowerN.
+Proof.
+  intros t s [<-|[<-|[<-|[<-|[<-|[<-|[<-|[<-|[]]]]]]]]] Hl Hle; destruct s as [|a [|b [|c [|? ?]]]]; try discriminate;
+    destruct a as [|[|[|a]]], b as [|[|[|b]]], c as [|[|c]]; try discriminate; cbn; auto 12.
+Qed.
+Lemma exC_lower_hyps : sorted exC_lower /\ wf 3 exC_lower /\ (forall t, In t exC_lower -> nonneg t) /\ lowerZ exC_lower /\ exC_lower <> [].
+Proof.
+  split; [unfold exC_lower, exC_lowerN, sorted; cbn; prove_sorted|]. split; [apply wf_zi; exact exC_lowerN_len|].
+  split; [apply nonneg_zi_set|]. split; [apply lowerZ_zi; exact exC_lowerN_lower|discriminate].
+Qed.
